@@ -6,6 +6,7 @@ import (
 	"context"
 	"crypto/sha256"
 	"fmt"
+	"io"
 	"net/http"
 	"net/http/httptest"
 	"net/url"
@@ -608,6 +609,35 @@ func mixed(c *harness.Ctx, dir, store string, uncompressed bool, want map[desync
 				resp.Body.Close()
 				if resp.StatusCode == 200 && (k != 0 || e != ext) {
 					c.Violation("serves-other-format", "chunk server (uncompressed=%v) answered 200 for %s%s, which only exists in the other format / was asked for with the other format's name", uncompressed, s[:10], e)
+					return
+				}
+			}
+		}
+		// a server of the OTHER format in front of the same client: what it sends under its own names is in its own
+		// format (the chunk converted), never the store's files as they are
+		var oconv desync.Converters
+		oext := ""
+		if uncompressed {
+			oconv = desync.Converters{desync.Compressor{}}
+			oext = ".cacnk"
+		}
+		osrv := httptest.NewServer(desync.NewHTTPHandler(own, false, false, oconv, ""))
+		defer osrv.Close()
+		s0 := order[0].String()
+		if resp, err := http.Get(osrv.URL + "/" + s0[:4] + "/" + s0 + oext); err == nil {
+			body, _ := io.ReadAll(resp.Body)
+			resp.Body.Close()
+			if resp.StatusCode == 200 {
+				plain := body
+				if uncompressed {
+					var derr error
+					if plain, derr = desync.Decompress(nil, body); derr != nil {
+						c.Violation("serves-other-format", "compressing chunk server in front of an uncompressed store answered GET %s.cacnk with 200 and %d bytes that are no zstd frame: %v", s0[:10], len(body), derr)
+						return
+					}
+				}
+				if !bytes.Equal(plain, want[order[0]]) {
+					c.Violation("serves-other-format", "chunk server (compressing=%v) in front of a store with uncompressed=%v answered 200 with bytes that are not the chunk in the server's format", uncompressed, uncompressed)
 					return
 				}
 			}
